@@ -78,6 +78,7 @@ func main() {
 			cid[h] = i
 		}
 		var log [][3]int
+		lastTick := map[int]int{}
 		index := 0
 		given := map[int]map[int]bool{} // commit -> ticks it was given
 		dumpReg := func() string {
@@ -103,11 +104,25 @@ func main() {
 			index++
 			tick := r[items.DependencyTick].(int)
 			fmt.Fprintf(wi, "%d | %s\n", tick, dumpReg())
+			// ticks never decrease along a branch (a clone starts from the tick its source had reached)
+			if last, ok := lastTick[b]; ok && tick < last {
+				hv.Fail("tick-decreased", fmt.Sprintf(`{"seed":%d,"case":%d,"branch":%d,"commit":%d}`, seed, it, b, i),
+					fmt.Sprintf("branch %d was at tick %d and got tick %d for commit %d", b, last, tick, i))
+			}
+			lastTick[b] = tick
 			log = append(log, [3]int{b, i, tick})
 			if given[i] == nil {
 				given[i] = map[int]bool{}
 			}
 			given[i][tick] = true
+		}
+		if rng.Intn(3) == 0 {
+			// a clone taken before the first commit (Pipeline.Run keeps such a pristine clone for further root
+			// branches): it must see the same start of the time axis as the branch that consumes the first commit
+			clone := branches[0].Fork(1)[0].(*items.TicksSinceStart)
+			branches = append(branches, clone)
+			fmt.Fprintf(wo, "tfork %d %d\n", 0, len(branches)-1)
+			fmt.Fprintln(wi, "ok")
 		}
 		consume(0, 0)
 		for i := 1; i < nc; i++ {
@@ -116,6 +131,9 @@ func main() {
 				clone := branches[src].Fork(1)[0].(*items.TicksSinceStart)
 				branches = append(branches, clone)
 				fmt.Fprintf(wo, "tfork %d %d\n", src, len(branches)-1)
+				if lt, ok := lastTick[src]; ok {
+					lastTick[len(branches)-1] = lt
+				}
 				fmt.Fprintln(wi, "ok")
 			}
 			if commits[i].np >= 2 && len(branches) >= 2 {
